@@ -938,8 +938,45 @@ func scenTransferFaults(e *engineA) error {
 		lk := links[e.rng.Intn(len(links))]
 		k := int64(1 + e.rng.Intn(6))
 		cur := e.net.WriteSeq(lk[0].label, lk[1].label)
-		mode := e.rng.Intn(4)
+		mode := e.rng.Intn(6)
 		switch mode {
+		case 4:
+			// any target, and whichever node the leader picks first, the
+			// connection to it is reset within its next writes: the leader has
+			// to go on to another node
+			for _, o := range os {
+				e.net.BreakAt(l.label, o.label, e.net.WriteSeq(l.label, o.label)+int64(1+e.rng.Intn(3)))
+			}
+		case 5:
+			// the target is told to time out now and says yes, but its vote
+			// requests reach nobody (the link to the leader stalls right after
+			// the reply): no new term appears and the leader has to try again
+			var armed int32 = 1
+			tdir, tl, ll := t.dir, t.label, l.label
+			peers := e.cl.liveNodes()
+			e.rc.onNodeEvent = func(dir string, r *ev.Rec) {
+				if dir == tdir && r.K == "rpc" && r.RPC == "timeoutNow" && atomic.CompareAndSwapInt32(&armed, 1, 0) {
+					e.net.StallAt(tl, ll, e.net.WriteSeq(tl, ll)+2)
+					for _, o := range peers {
+						if o.label != tl && o.label != ll {
+							e.net.Cut(tl, o.label, true)
+						}
+					}
+				}
+			}
+			extra := time.Duration(e.rng.Intn(200)) * time.Millisecond
+			go func(t *Node) {
+				time.Sleep(500*time.Millisecond + extra)
+				e.rc.onNodeEvent = nil
+				for _, o := range peers {
+					if o != t {
+						e.net.StallAt(t.label, o.label, 0)
+						e.net.Stall(t.label, o.label, false)
+						e.net.Cut(t.label, o.label, false)
+						e.net.Release(t.label, o.label, true)
+					}
+				}
+			}(t)
 		case 0:
 			e.net.BreakAt(lk[0].label, lk[1].label, cur+k)
 		case 1:
@@ -948,8 +985,9 @@ func scenTransferFaults(e *engineA) error {
 			// the target cannot be reached, so the transfer stays pending; then
 			// the leader loses its quorum and steps down without a higher term
 			e.cutBoth(l, t, true)
+			wait := time.Duration(1+e.rng.Intn(2)) * e.hb()
 			go func(l *Node) {
-				time.Sleep(time.Duration(1+e.rng.Intn(2)) * e.hb())
+				time.Sleep(wait)
 				e.isolate(l, true)
 				time.Sleep(6 * e.hb())
 				e.isolate(l, false)
@@ -957,7 +995,7 @@ func scenTransferFaults(e *engineA) error {
 		}
 		e.rc.emit(&ev.Rec{K: "fault", Op: fmt.Sprintf("transfer-with-fault-mode%d", mode), Nid: l.nid, ID: t.nid, Idx: uint64(k), Note: fmt.Sprintf("%d->%d", lk[0].nid, lk[1].nid)})
 		target := t.nid
-		if e.rng.Intn(3) == 0 && mode != 3 {
+		if (e.rng.Intn(3) == 0 && mode != 3 && mode != 5) || mode == 4 {
 			target = 0
 		}
 		done := make(chan struct{})
@@ -965,18 +1003,24 @@ func scenTransferFaults(e *engineA) error {
 		if mode == 3 {
 			tmo = 30 * e.hb()
 		}
+		if mode == 5 {
+			tmo = time.Second + 10*e.hb()
+		}
 		go func() {
 			e.cl.transfer(l, target, tmo)
 			close(done)
 		}()
 		select {
 		case <-done:
-		case <-time.After(40 * e.hb()):
+		case <-time.After(40*e.hb() + time.Second):
 		}
 		e.sleepHB(1, 3)
 		if mode == 3 {
 			e.sleepHB(6, 8)
 			e.cutBoth(l, t, false)
+		}
+		for _, o := range os {
+			e.net.BreakAt(l.label, o.label, 0)
 		}
 		e.net.BreakAt(lk[0].label, lk[1].label, 0)
 		e.net.StallAt(lk[0].label, lk[1].label, 0)
@@ -1239,7 +1283,7 @@ func scenInstallCrash(e *engineA) error {
 		e.cl.fsmOpPad(1, l, "update", pad)
 	}
 	f := e.others(l)[e.rng.Intn(2)]
-	pts := []string{"install.stored", "install.stored", "install.logHandled", "log.reset.each", "log.reset.created", "clearLog"}
+	pts := []string{"install.stored", "install.stored", "install.logHandled", "log.reset.each", "log.reset.created", "clearLog", "cut-mid-snapshot", "cut-mid-snapshot"}
 	pt := pts[e.rng.Intn(len(pts))]
 	e.rc.emit(&ev.Rec{K: "fault", Op: "install-crash at " + pt, Nid: f.nid})
 	e.isolate(f, true)
@@ -1261,9 +1305,21 @@ func scenInstallCrash(e *engineA) error {
 	if pt == "log.reset.each" {
 		occ = 1 + e.rng.Intn(4)
 	}
-	e.pc.planCrash(f.dir, pt, occ)
-	e.isolate(f, false)
-	e.waitFor(60, func() bool { return f.isCrashed() })
+	if pt == "cut-mid-snapshot" {
+		// no kill: the leader's side of the connection goes away somewhere in
+		// the snapshot it is sending (handshake and the first requests are a
+		// few hundred bytes; the snapshot holds every update so far). Nothing
+		// of a snapshot that was not received whole may become visible.
+		info, _ := l.info(false)
+		size := int(info.LastLogIndex) * (pad + 8)
+		e.net.CutAfter(l.label, f.label, int64(150+e.rng.Intn(size)))
+		e.isolate(f, false)
+		e.sleepHB(6, 10)
+	} else {
+		e.pc.planCrash(f.dir, pt, occ)
+		e.isolate(f, false)
+		e.waitFor(60, func() bool { return f.isCrashed() })
+	}
 	e.sleepHB(1, 3)
 	e.cl.recoverCrashed()
 	e.startClients(2, map[string]int{"update": 3, "read": 1})
